@@ -270,7 +270,37 @@ class Ctx:
         return path
 
     # -- verdict ---------------------------------------------------------------
+    def second_pass(self):
+        """Only internal projected fields deviate from the specification: validate those traces again
+        without re-synchronising the specification's state after each event.  If the deviation has a
+        consequence, the calls that follow return something the specification (evolving by its own
+        rules from the same inputs) does not."""
+        files = []
+        for r in self.drift:
+            if r["trace"] not in files and os.path.exists(r["trace"]):
+                files.append(r["trace"])
+        files = files[:8]
+        if not files:
+            return
+        reports, _ = vlib.validate_traces(files, self.kf, noresync=True)
+        drift_before = self.drift
+        self.drift = []
+        for r in reports:
+            if r["kind"] == "MISMATCH":
+                r = dict(r, fields=sorted(set(r["fields"]) & (OBSERVABLES | self.obs_state)))
+                if not r["fields"]:
+                    continue
+            self.classify([r])
+        for f in self.findings:
+            f["reason"] += " (second pass: the specification's state was not re-synchronised after an internal deviation in %s)" % (drift_before[0]["fields"],)
+        self.drift = drift_before
+
     def finish(self, wall):
+        if not self.findings and self.drift:
+            try:
+                self.second_pass()
+            except Broken as e:
+                log("[second pass] " + str(e)[:300])
         for kid, hits in sorted(self.known_hits.items()):
             e = [x for x in self.known["open"] if x["id"] == kid][0]
             print("KNOWN-FINDING: property=%s %s: %s (%d occurrences in this run)" % (self.pid, kid, e["what"], len(hits)))
